@@ -266,6 +266,21 @@ def c07(tier):
                         native_extra=["stubs/icu_norm_cheap.c"], object_bits=10, group="h07_ser",
                         bounds={"shape": SHAPE_NAMES[shape], "DEFAULT_SERIALIZATION_CAP": SERCAP},
                         note="serialize -> deserialize round trip"))
+    import sql_colmap
+    for vk in range(4):
+        for wp in (0, 1):
+            for rp in (0,):   # read path 1 (iterator, GET_LOOP_VALUES_SQL) gives no verdict in 240 s: not claimed
+                qs.append(Q("C07_props_%s_w%d_r%d" % (["char", "numb", "na", "unk"][vk], wp, rp), "h07_props.c", defs={"VKIND": vk, "WPATH": wp, "RPATH": rp, "SENV_COLSTORE": None},
+                            extra=SQL_EXTRA, libtus=SQL_TUS, gen=lambda wd: sql_colmap.gen(wd, REPO), unwind=8,
+                            remove=[("value.c", "cif_value_get_number")] if vk == 1 else [],
+                            unwindset=VAL_REC + ["memcmp.*:8", "teardown.*:31", "strcmp.*:900", "strncmp.*:20", "memset.*:700", "sqlite3_prepare_v2.*:40",
+                                                 "sqlite3_clear_bindings.*:18", "sqlite3_finalize.*:18", "sqlite3_step.*:18", "memcpy.*:64", "strlen.*:8", "harness.*:10"],
+                            mode="func", replay_libs=["-licuio", "-licui18n", "-licuuc", "-licudata"], native_extra=["stubs/icu_norm_cheap.c", "stubs/sqlite_env.c"],
+                            object_bits=10, group="h07_props",
+                            bounds={"value": ["char, 2 symbolic units, symbolic quoted flag", "number -4.7(2) (concrete)", "n/a", "unknown"][vk],
+                                    "write path": ["cif_container_set_all_values (SET_ALL_VALUES_SQL)", "cif_loop_add_packet (INSERT_VALUE_SQL)"][wp],
+                                    "read path": ["cif_container_get_value (GET_VALUE_SQL)", "cif_loop_get_packets + cif_pktitr_next_packet (GET_LOOP_VALUES_SQL)"][rp]},
+                            note="SET_VALUE_PROPS -> column map of the current sql.h -> GET_VALUE_PROPS"))
     caps = [(1, 0), (2, 1), (8, 0), (8, 8)] if tier == "quick" else [(1, 0), (1, 1), (2, 0), (2, 1), (3, 3), (8, 0), (8, 5), (8, 8), (16, 9)]
     for (cap, pos) in caps:
         for ln in sorted({0, 1, max(cap - pos, 0), max(cap - pos, 0) + 1, (cap * 3) // 2 - pos if (cap * 3) // 2 > pos else 2, (cap * 3) // 2 - pos + 1 if (cap * 3) // 2 >= pos else 3, 3 * cap + 1}):
@@ -449,7 +464,8 @@ MANI["C07"] = {
             "value <-> column macros against the SQL column lists through the SQLite environment stub.",
     "note": "NOT decided: the byte-level round trip of char/number/list/table values (kind and lengths read back from the byte image are "
             "symbolic to CBMC and the recursive deserialiser gives no verdict in 240 s even for one char value) and everything SQLite does "
-            "with the columns; cif_value_clone deep copies are under C19"}
+            "with the columns; the iterator read path (GET_LOOP_VALUES_SQL) and the iterator update statement (UPDATE_VALUE_SQL) column "
+            "lists (no verdict in 240 s); number values use a concrete text in the column check; cif_value_clone deep copies are under C19"}
 
 MANI["C17"] = {
     "text": "Bounded model checking with allocation-failure injection: the library TUs are compiled with malloc/calloc/realloc/strdup renamed to "
